@@ -127,12 +127,33 @@ Theorem C04_recover_order_refuted : exists ls q,
 Proof. exact (ex_intro _ _ (ex_intro _ qa order_refuted)). Qed.
 Print Assumptions C04_recover_order_refuted.
 
-(* F41: a purge inside the flush window is undone by the next batch *)
-Theorem C04_purge_in_flush_window_F41 : exists ls q,
-  existsb (is_purge_of q) ls = true /\
-  map m_id (fst (ms_recover (fst (ms_run (ms_init Badger true true) ls)) q 0)) = [100].
-Proof. exact f41_exists. Qed.
-Print Assumptions C04_purge_in_flush_window_F41.
+(* ---- PurgeQueue is effective (F41 repaired in /repo 390cc62: no hypothesis about the flush window is needed) ----
+   After a purge of q (one that is not waiting for a running persist: persist holds flushLock), a key of q is out of the
+   engine, and stays out - over ticks, kills, graceful stops, other queues' calls - for as long as nothing writes it
+   again, whatever was pending for it when the purge ran. *)
+Theorem C04_purge_effective : forall c ls0 ls1 q id,
+  ms_fly (fst (ms_run (ms_init Badger true c) ls0)) = None ->
+  forallb (fun l => negb (is_write_of (msg_key q id) l)) ls1 = true ->
+  kv_mem (ms_db (fst (ms_run (ms_init Badger true c) (ls0 ++ MPurge q :: ls1)))) (msg_key q id) = false /\
+  kv_mem (ms_db (ms_kill (fst (ms_run (ms_init Badger true c) (ls0 ++ MPurge q :: ls1))))) (msg_key q id) = false.
+Proof. exact store_purge_effective. Qed.
+Print Assumptions C04_purge_effective.
+
+(* the repaired behaviour on the old F41 witness: nothing comes back and the publisher IS confirmed *)
+Example C04_purge_in_flush_window_repaired :
+  let ls := [MAdd (mk 100 1) qa; MPurge qa; MPersistTick; MKill] in
+  let r := ms_run (ms_init Badger true true) ls in
+  fst (ms_recover (fst r) qa 0) = [] /\ ms_db (fst r) = [] /\ relay_in (msg_key qa 100) (snd r) = true.
+Proof. exact purge_in_window_repaired. Qed.
+
+(* F72 repaired (/repo 6288047): a graceful stop writes out what is pending, a kill loses it *)
+Theorem C04_generated_purge_and_close :
+  purge_waits_for_persist = true /\ purge_cancels_pending_adds = true /\ purge_drops_pending_updates = true /\ close_persists = true.
+Proof. exact gen_purge. Qed.
+Example C04_close_persists_kill_loses :
+  map m_id (fst (ms_recover (fst (ms_run (ms_init Badger true true) [MAdd (mk 100 1) qa; MClose])) qa 0)) = [100] /\
+  fst (ms_recover (fst (ms_run (ms_init Badger true true) [MAdd (mk 100 1) qa; MKill])) qa 0) = [].
+Proof. exact close_persists_kill_loses. Qed.
 
 (* ---- non-vacuity ---- *)
 Example C04_store_durable_example :
